@@ -10,6 +10,7 @@ def sh(cmd, **kw):
 out = {}
 assert sh('git -C /repo status --porcelain').stdout.strip() == '', 'repo not clean'
 out['demo_clean'] = sh(f'/venv/bin/python {d}/demo.py', cwd='/tmp').returncode
+saved = {p: open(f'/verif/evidence/{p}.json').read() for p in props if os.path.exists(f'/verif/evidence/{p}.json')}
 a = sh(f'git -C /repo apply {d}/patch.diff')
 assert a.returncode == 0, a.stdout
 try:
@@ -23,4 +24,6 @@ try:
         out['checks'][p] = dict(exit=r.returncode, lines=[l[:300] for l in lines])
 finally:
     sh('git -C /repo checkout -- . && git -C /repo clean -fdq bisturi tests')
+    for p, text in saved.items():      # evidence describes the unchanged tree only
+        open(f'/verif/evidence/{p}.json', 'w').write(text)
 print(json.dumps(out, indent=1))
